@@ -125,3 +125,110 @@ func c03OpenCtx(c *mon.Case, sp c03Spec) {
 	c.Nontrivial()
 	c.Sig("openctx|%v", replyFirst)
 }
+
+// c03SendTimeout: a Send that fails with the send-timeout error (no peer, or the only connection
+// busy) has not issued a request: the Recv that follows fails with the protocol-state error at
+// once instead of waiting for a reply that cannot come, and a later request works normally.
+func c03SendTimeout(c *mon.Case, sp c03Spec) {
+	s := hx.MustSock(c, "req")
+	s.SetOption(mangos.OptionRetryTime, time.Hour)
+	name := hx.Uniq("c03t")
+	L := vt.L(name)
+	c.Cleanup(func() { vt.Forget(name) })
+	if err := s.Listen(vt.Addr(name)); err != nil {
+		c.Inconclusive("setup: %v", err)
+		return
+	}
+	w := hx.WatchPipes(s)
+	type ctxT interface {
+		Send([]byte) error
+		Recv() ([]byte, error)
+		SetOption(string, interface{}) error
+	}
+	var cx ctxT = s
+	if sp.NOps%2 == 1 {
+		x, err := s.OpenContext()
+		if err != nil {
+			c.Violate("req/open-context-error", "%v", err)
+			return
+		}
+		cx = x
+	}
+	busy := sp.NOps%4 >= 2
+	var r *vt.Pipe
+	if busy {
+		// the only connection is occupied by another context's request that its transport does not complete
+		r = L.Connect()
+		if !hx.WaitAttached(c, w, 1, "replier") {
+			return
+		}
+		r.HoldSends()
+		other, err := s.OpenContext()
+		if err != nil {
+			c.Violate("req/open-context-error", "%v", err)
+			return
+		}
+		k := mon.Go("Send", func() (interface{}, error) { return nil, other.Send([]byte("occupying")) })
+		if !c.AwaitOrViolate("req/send-stuck", "the occupying request being handed to the connection", k.Done, mon.AwaitOpts{}) {
+			return
+		}
+	}
+	const D = 10 * time.Millisecond
+	cx.SetOption(mangos.OptionSendDeadline, D)
+	k := mon.Go("Send", func() (interface{}, error) { return nil, cx.Send([]byte("never-leaves")) })
+	if !c.AwaitOrViolate("req/send-stuck", "Send with a 10ms send deadline and no connection able to take the request", k.Done, mon.AwaitOpts{MaxTimer: D}) {
+		return
+	}
+	if _, err, _ := k.Result(); err != mangos.ErrSendTimeout {
+		c.Inconclusive("Send returned %v, not the send-timeout error", err)
+		return
+	}
+	rk := mon.Go("Recv", func() (interface{}, error) { b, e := cx.Recv(); return b, e })
+	if !c.AwaitOrViolate("req/recv-stuck", "Recv after a Send that failed with the send-timeout error (no request is outstanding)", rk.Done, mon.AwaitOpts{}) {
+		return
+	}
+	if v, err, _ := rk.Result(); err != mangos.ErrProtoState {
+		c.Violate("req/no-request-recv-error", "Recv after a Send that timed out returned (%q, %v), want ErrProtoState", v, err)
+		return
+	}
+	c.Count("recv_calls", 1)
+	// and the context is usable: a request, its reply
+	if r == nil {
+		r = L.Connect()
+		if !hx.WaitAttached(c, w, 1, "replier") {
+			return
+		}
+	} else {
+		r.ReleaseSends()
+	}
+	cx.SetOption(mangos.OptionSendDeadline, time.Duration(0))
+	before := r.SentCount()
+	k2 := mon.Go("Send", func() (interface{}, error) { return nil, cx.Send([]byte("real-request")) })
+	if !c.AwaitOrViolate("req/send-stuck", "Send with a ready peer after the timed-out one", k2.Done, mon.AwaitOpts{}) {
+		return
+	}
+	var id uint32
+	if !c.AwaitOrViolate("req/request-not-transmitted", "the request reaching the peer", func() bool {
+		for _, x := range r.SentFrom(before) {
+			if w := x.Wire(); len(w) >= 4 && string(w[4:]) == "real-request" {
+				id = binary.BigEndian.Uint32(w)
+				return true
+			}
+		}
+		return false
+	}, mon.AwaitOpts{}) {
+		return
+	}
+	r.Inject(hx.ReplyWire(id, 7))
+	rk2 := mon.Go("Recv", func() (interface{}, error) { b, e := cx.Recv(); return b, e })
+	if !c.AwaitOrViolate("req/recv-stuck", "Recv of the reply to the later request", rk2.Done, mon.AwaitOpts{}) {
+		return
+	}
+	if v, err, _ := rk2.Result(); err != nil {
+		c.Violate("req/recv-error", "Recv of the later request's reply returned (%q, %v)", v, err)
+		return
+	}
+	c.Count("replies_delivered", 1)
+	c.Nontrivial()
+	c.Sig("sendtimeout|%d", sp.NOps%4)
+}
